@@ -61,6 +61,7 @@ def _case(draw):
         "vary": draw(st.sampled_from(["all", "all", "wind_dir", "mol", "wind_speed+wind_dir", "ustar"])),
         "user_flux": draw(st.sampled_from([False, False, True])),
         "nudged": draw(st.sampled_from([False, False, True])),
+        "aligned": draw(st.sampled_from([False, False, True])),
         "src_loc": draw(st.sampled_from([None, [30.0, 110.0], [125.0, 40.0]])),  # ideal source off the domain centre
         "flux_shape": draw(st.sampled_from(["diamond", "circle", "point"])),
         "delays": [[draw(st.sampled_from([120, 0, 60, 20, 0])) for _ in range(nt)] for _ in range(ntow)],
@@ -99,7 +100,11 @@ def _config(case):
     towers = []
     for k in range(case["ntow"]):
         x, y = 40.0 + 30.0 * k, 50.0 + 20.0 * k
-        towers.append({"name": ["north", "alpha", "mid"][k], "z_m": 3.0 + k,
+        zm = 3.0 + k
+        if case.get("aligned"):
+            # same height, whole cells apart (cells are 20 m x 25 m): every tower still gets its own solve
+            x, y, zm = 40.0 + 40.0 * k, 50.0 + 25.0 * k, 3.0
+        towers.append({"name": ["north", "alpha", "mid"][k], "z_m": zm,
                        "lat": 48.0 + np.degrees(y / R), "lon": 11.0 + np.degrees(x / (R * np.cos(np.radians(48.0))))})
     cfg = parse_config_dict({
         "domain": dom, "towers": towers, "met": met,
@@ -108,7 +113,11 @@ def _config(case):
                        **({"src_loc": case["src_loc"]} if case.get("src_loc") else {})),
         "parallel": {"use_cache": case["use_cache"], "max_workers": case["workers"]},
     })
-    if case.get("nudged"):
+    if case.get("aligned"):
+        # ... with their surveyed local coordinates entered exactly (lat/lon placement leaves them 1e-11 m off the nodes)
+        for k, t in enumerate(cfg.towers):
+            t.x, t.y = 40.0 + 40.0 * k, 50.0 + 25.0 * k
+    elif case.get("nudged"):
         # local coordinates corrected by hand after the configuration was built (surveyed positions): the object the
         # drivers are given says where the towers are, whatever its lat/lon fields would give
         for k, t in enumerate(cfg.towers):
@@ -226,6 +235,14 @@ def check_case(case):
                 compare("run_bldfm_multitower (cache populated)", iface.run_bldfm_multitower(cfg), exact=case["parent_threads"] == 1)
             except Exception as e:
                 out.bad(f"run_bldfm_multitower with a populated cache raised {type(e).__name__}: {e}")
+        # a parallel run that is handed a user flux first (documented: the parallel driver ignores it, with a warning):
+        # nothing of it may linger in the driver for the run that follows
+        if flux is not None:
+            try:
+                compare("run_bldfm_parallel(surface_flux=...) [documented to ignore the flux]",
+                        iface.run_bldfm_parallel(cfg, max_workers=case["workers"], parallel_over=case["strategy"], surface_flux=flux))
+            except Exception as e:
+                out.bad(f"run_bldfm_parallel with a user-supplied surface flux raised {type(e).__name__}: {e}")
         # parallel driver under the drawn schedule
         iface.run_bldfm_single = delayed
         signal.alarm(180)
